@@ -224,7 +224,7 @@ def oracle(case, lines):
     bad = []
     if lines == ['<skipped>']:
         return []
-    died = [l for l in lines if l.startswith('CRASH') or l == 'HANG' or l == '<missing>']
+    died = [l for l in lines if l.startswith('CRASH') or l.startswith('HANG') or l == '<missing>']
     lines = [l for l in lines if l not in died]
     t = parse_trace(lines)
     ids = case['ids']
